@@ -448,6 +448,7 @@ func init() {
 			"computed (custom-property graphs incl. cycles and malformed var() + such a declaration, read through a full box build), descriptors (@font-face/@counter-style rules through NewCSSDefault and a box build using the style), page (@page selectors incl. :nth(... of ...) + margin boxes), color, nth, media (@media/@import queries), " +
 			"svg (generated SVG documents with hostile attribute values, defs graphs with cycles; Parse then Draw on a recording canvas), svgattr (one hostile attribute on path/polygon/svg/stop/rect/text), url (data: URIs and joins), htmlattr (colspan/rowspan/span/start/value/size/rows/cols/width/border/cellspacing... with empty, 0, negative, huge, non-ASCII, junk values; box build with hints off and on). " +
 			"Entry areas: 1-3 strings built from dots, names and spaces as value of grid-template-areas; accepted exactly when a reference reading finds equal non-empty rows and one filled rectangle per name. " +
+			"htmlattr: the colspan read from a cell equals the decimal reading of the attribute (010, 0x3, 1_0 ... included). " +
 			"Oracle: the call returns (value, error or ignored) within the watchdog; a panic, process death (stack exhaustion) or non-termination is a violation identified by its site; error returns are not violations. Non-trivial: the input was not rejected at the first token (per entry: >1 token, known property with a value, attribute reached its parser, data URI with a comma).",
 		ImportantLabels: []string{"entry:areas", "entry:css", "entry:selector", "entry:validate", "entry:computed", "entry:descriptors", "entry:page", "entry:svg", "entry:svgattr", "entry:url", "entry:htmlattr", "accepted", "rejected"},
 		Assumptions:     []string{"a 20 s silence of one call is classed as non-termination (typical calls take microseconds)"},
